@@ -228,7 +228,7 @@ def convergence_oracle(args):
         H.from_pauli_sum(terms=terms, length=L)
     v0 = dense.mps_dense(MPS(L, state=args["state"]))
     v0 /= np.linalg.norm(v0)
-    T = 0.4
+    T = float(args.get("T", 0.4))
     e0 = dense.expect(v0, hd)
     errs = []
     for dt in (0.1, 0.05):
@@ -266,6 +266,10 @@ def search(ctx):
         plan.append(dict(seed=int(ctx.rng.integers(0, 2**31)), L=int(ctx.rng.integers(2, 5 if ctx.quick else 6)), ham=["ising", "heisenberg", "pauli"][k % 3],
                          state=states[k % len(states)], mode="TDVP" if k % 4 else "BUG", order=1 + k % 2, compare_orders=(k % 5 == 0),
                          reuse=(k % 3 == 2 and k % 4 != 0)))
+    # wide and long enough for the middle bonds to pass dimension 8: the local Krylov steps then leave the small dense path
+    for k in range(ctx.scale(1, 4)):
+        plan.append(dict(seed=int(ctx.rng.integers(0, 2**31)), L=8, ham="pauli", state=["Neel", "x+"][k % 2], mode="TDVP", order=1 + k % 2, T=1.2, wide=True))
+        ctx.count("wide_chains")
     for a in plan:
         if a["mode"] == "BUG":
             a["order"] = 2
